@@ -1377,6 +1377,7 @@ func r12HandedBackReset(c *RuleCtx) {
 		cd := isCand[fn]
 		// where the parameter is zeroed as a whole
 		var zeroed []ssa.Instruction
+		zeroedAs := map[ssa.Value][]ssa.Instruction{} // ... under another name (a phi of the parameter and a fresh object)
 		eachInstr(fn, func(_ *ssa.BasicBlock, in ssa.Instruction) {
 			if st, ok := in.(*ssa.Store); ok && st.Addr == ssa.Value(cd.prm) {
 				if _, ok := wholeStructStore(st); ok {
@@ -1386,9 +1387,22 @@ func r12HandedBackReset(c *RuleCtx) {
 			if cs, ok := in.(*ssa.Call); ok && len(cs.Call.Args) > 0 && cs.Call.Args[0] == ssa.Value(cd.prm) && resetHelper(cs.Call.StaticCallee()) != nil {
 				zeroed = append(zeroed, in)
 			}
+			if st, ok := in.(*ssa.Store); ok && st.Addr != ssa.Value(cd.prm) && valueMayBe(st.Addr, cd.prm) {
+				if _, ok := wholeStructStore(st); ok {
+					zeroedAs[st.Addr] = append(zeroedAs[st.Addr], in)
+				}
+			}
+			if cs, ok := in.(*ssa.Call); ok && len(cs.Call.Args) > 0 && cs.Call.Args[0] != ssa.Value(cd.prm) && valueMayBe(cs.Call.Args[0], cd.prm) && resetHelper(cs.Call.StaticCallee()) != nil {
+				zeroedAs[cs.Call.Args[0]] = append(zeroedAs[cs.Call.Args[0]], in)
+			}
 		})
 		var okVal func(v ssa.Value, at *ssa.BasicBlock, seen map[ssa.Value]bool) bool
 		okVal = func(v ssa.Value, at *ssa.BasicBlock, seen map[ssa.Value]bool) bool {
+			for _, z := range zeroedAs[v] {
+				if z.Block() == at || z.Block().Dominates(at) {
+					return true
+				}
+			}
 			switch x := v.(type) {
 			case *ssa.Const:
 				return true
